@@ -206,6 +206,14 @@ def make_ppo_plan(rng):
     plan["cfg"]["num_envs"] = rng.choice([2, 2, 3])
     plan["cfg"]["batch_size"] = rng.choice([2, 3, 4, 6])
     plan["env"]["scripts"] = [trainplan.make_script(rng, 30, style=rng.choice(["short", "mixed", "long", "one_step"])) for _ in range(plan["cfg"]["num_envs"])]
+    if rng.random() < 0.4:
+        # boundary coincidence: several environments are truncated in the same step
+        sc = trainplan.make_script(rng, 30, style=rng.choice(["short", "mixed"]))
+        for ep in sc:
+            ep["end"] = "trunc"
+        plan["env"]["scripts"] = [json.loads(json.dumps(sc)) for _ in range(plan["cfg"]["num_envs"])]
+        if plan["cfg"]["num_envs"] == 3 and rng.random() < 0.5:
+            plan["env"]["scripts"][2] = trainplan.make_script(rng, 30, style="mixed")
     plan["logger"] = rng.random() < 0.7
     plan["monitor"] = False
     plan["kind"] = "rtg"
